@@ -423,3 +423,110 @@ def type_switch_rule(m, rid):
                        "cover %s, which the grammar can produce for <%s> (it is an alternative, not a Python subclass, of a tested class): valid "
                        "input of that form escapes as the raised internal error" % (q, lcls, sorted(missing), elem), m.loc(f, n))
     return r
+
+
+# =================================================================================================
+# int() of text that a regex matched: every string the regex can match converts (after the normalisation applied)
+# =================================================================================================
+def int_operand_rule(m, rid):
+    import itertools
+    import re
+    from sa import pureeval as PE
+    r = RuleResult(rid, "int() is applied to regex-matched text only after a normalisation under which every string the pattern can match "
+                        "converts (a pattern that admits blanks needs them removed)")
+    r.floor = 2
+    undecided = []
+    for (path, q), f in sorted(m.funcs.items()):
+        if "/tests/" in path or "/two/" not in path:
+            continue
+        for c in A.calls(f.node):
+            if not (isinstance(c.func, ast.Name) and c.func.id == "int" and len(c.args) == 1):
+                continue
+            # trace the operand back to `<match>.group(0)` of re.search/match(<Class>.<pattern attr>, ...)
+            expr = c.args[0]
+            chain = []
+            seen = 0
+            pat = None
+            while seen < 6:
+                seen += 1
+                if isinstance(expr, ast.Name):
+                    defs = [n for n in A.body_nodes(f.node) if isinstance(n, ast.Assign) and any(A.text(t) == expr.id for t in n.targets)
+                            and n.lineno <= c.lineno]
+                    if not defs:
+                        break
+                    d = max(defs, key=lambda n: n.lineno)
+                    chain.append((expr.id, d.value))
+                    expr = d.value
+                    continue
+                if isinstance(expr, ast.Call) and isinstance(expr.func, ast.Attribute) and expr.func.attr in ("replace", "strip", "lstrip", "rstrip"):
+                    expr = expr.func.value
+                    continue
+                if isinstance(expr, ast.Subscript):
+                    expr = expr.value
+                    continue
+                if isinstance(expr, ast.Call) and isinstance(expr.func, ast.Attribute) and expr.func.attr == "group":
+                    mv = expr.func.value
+                    if isinstance(mv, ast.Name):
+                        mdefs = [n for n in A.body_nodes(f.node) if isinstance(n, ast.Assign) and any(A.text(t) == mv.id for t in n.targets)]
+                        for md in mdefs:
+                            if isinstance(md.value, ast.Call) and A.dotted(md.value.func) in ("re.search", "re.match") and md.value.args:
+                                parg = md.value.args[0]
+                                pv = A.const(parg, None)
+                                if pv is None and isinstance(parg, ast.Name):
+                                    pd = [n for n in A.body_nodes(f.node) if isinstance(n, ast.Assign) and any(A.text(t) == parg.id for t in n.targets)]
+                                    if pd:
+                                        parg = pd[0].value
+                                if pv is None and isinstance(parg, ast.Attribute) and isinstance(parg.value, ast.Name):
+                                    ck = m.class_of_name(f, parg.value.id)
+                                    ent = m.classes.get(ck, {}).get("own", {}).get(parg.attr) if ck else None
+                                    pv = ent.get("value") if ent else None
+                                pat = pv
+                    break
+                break
+            if not isinstance(pat, str):
+                undecided.append("%s:`%s`" % (q, A.text(c)[:30]))
+                continue
+            r.instances += 1
+            # strings of the pattern's own alphabet up to length 4 that it matches completely
+            alphabet = sorted({ch for ch in "0123456789 hHxX+-._"})
+            rx = re.compile(pat)
+            ev = PE.Evaluator({})
+            bad = None
+            n_words = 0
+            for k in range(1, 5):
+                for w in itertools.product("12 0hH", repeat=k):
+                    w = "".join(w)
+                    mo = rx.search(w)
+                    if not mo or mo.group(0) != w:
+                        continue
+                    n_words += 1
+                    # re-run the operand expression with the innermost match text substituted
+                    env = {}
+                    val = w
+                    try:
+                        for name, vexpr in reversed(chain):
+                            class T(ast.NodeTransformer):
+                                def visit_Call(self, node):
+                                    if isinstance(node.func, ast.Attribute) and node.func.attr == "group":
+                                        return ast.copy_location(ast.Constant(value=w), node)
+                                    return self.generic_visit(node)
+                            import copy as _copy
+                            env[name] = ev.ev(T().visit(_copy.deepcopy(vexpr)), dict(env))
+                        arg = ev.ev(c.args[0], dict(env)) if chain else w
+                        int(arg)
+                    except ValueError:
+                        bad = (w, arg)
+                        break
+                    except (PE.Unsupported, PE.PyRaise) as err:
+                        bad = None
+                        undecided.append("%s:`%s` (%s)" % (q, A.text(c)[:30], err))
+                        break
+                if bad:
+                    break
+            r.ob(bad is None, "%s: int(%s) over %d strings matched by %r" % (q, A.text(c.args[0])[:30], n_words, pat))
+            if bad:
+                r.fail("%s|int|%s" % (q, A.text(c.args[0])[:30]), "%s converts `%s` with int(), but the pattern %r it was matched with also matches %r, "
+                       "for which the operand is %r: ValueError escapes the parser" % (q, A.text(c.args[0])[:40], pat, bad[0], bad[1]), m.loc(f, c))
+    if undecided:
+        r.notes.append("int() operands not traced to a regex literal (not decided): %s" % undecided)
+    return r
